@@ -41,11 +41,14 @@ SWEEP = {
 # LONG deterministic walks (cbdrv long, Script.lean `longWalk`): counts in the hundreds, so that a counter that wraps or saturates (a
 # `u8`, a fixed-size table) is within reach; always run (cheap): operator -> [(instance, rounds, burst, mode)]
 LONG = {
-    "skip": [("skip:300", 700, 0, 0), ("skip:260", 40, 300, 1)], "take": [("take:300", 700, 0, 0), ("take:260", 40, 300, 1)],
-    "map": [("map:add:1", 600, 0, 0), ("map:add:1", 30, 300, 1)], "filter": [("filter:mod:2:0", 600, 0, 0), ("filter:mod:3:1", 30, 300, 1)],
+    "skip": [("skip:300", 700, 0, 0), ("skip:260", 40, 300, 1), ("skip:256", 600, 400, 2)],
+    "take": [("take:300", 700, 0, 0), ("take:260", 40, 300, 1), ("take:256", 600, 400, 2)],
+    "map": [("map:add:1", 600, 0, 0), ("map:add:1", 30, 300, 1), ("map:add:1", 600, 300, 2)],
+    "filter": [("filter:mod:2:0", 600, 0, 0), ("filter:mod:3:1", 30, 300, 1), ("filter:mod:2:0", 600, 300, 2)],
     "scan": [("scan:lin:2:0", 600, 0, 0)], "fromiter": [("fromiter:inf", 600, 0, 0), ("fromiter:inf", 6, 300, 1), ("fromiter:300", 700, 0, 0)],
-    "merge": [("merge:2", 600, 0, 0), ("merge:3", 30, 300, 1)], "concat": [("concat:2", 600, 0, 0), ("concat:3", 30, 300, 1)],
-    "combine": [("combine:2", 600, 0, 0)], "flatten": [("flatten", 600, 0, 0)], "share": [("share:2", 600, 0, 0), ("share:1", 30, 300, 1)],
+    "merge": [("merge:2", 600, 0, 0), ("merge:3", 30, 300, 1), ("merge:2", 600, 255, 2)],
+    "concat": [("concat:2", 600, 0, 0), ("concat:3", 30, 300, 1), ("concat:2", 600, 255, 2), ("concat:3", 900, 256, 2), ("concat:2", 600, 254, 2)],
+    "combine": [("combine:2", 600, 0, 0), ("combine:2", 600, 255, 2)], "flatten": [("flatten", 600, 0, 0), ("flatten", 600, 255, 2)], "share": [("share:2", 600, 0, 0), ("share:1", 30, 300, 1)],
     "foreach": [("foreach", 600, 0, 0)],
     "chain": [("chain:map,add,1/take,300", 700, 0, 0), ("chain:skip,260/filter,mod,2,1/take,260", 1200, 0, 0)],
 }
